@@ -18,6 +18,7 @@ CONSTANTS TypeSets,      \* set of ascending sequences of type ids
           DataLenSeqs,   \* set of sequences of data block lengths
           Versions,      \* subset of {3, 4}
           Fixups,        \* BOOLEAN: also generate consistent-header corruptions
+          CorruptAll,    \* BOOLEAN: corrupt every base (FALSE: only the structurally maximal ones)
           Emit           \* BOOLEAN: print the cases
 
 VARIABLES v, df, c
@@ -38,12 +39,12 @@ SumFn(f, n) == FoldLeft(LAMBDA acc, i : acc + f[i], 0, [i \in 1..n |-> i])
 IdFor(i, j, cnt) == IF i = 2 THEN 65535 - (cnt - j) ELSE j - 1
 
 MkDf(ts, cnt, ls, dl) ==
-  LET heads == FlattenSeq([i \in 1..Len(ts) |->
+  LET heads == Concat([i \in 1..Len(ts) |->
                              [j \in 1..cnt[i] |-> [t |-> ts[i], id |-> IdFor(i, j, cnt[i])]]])
   IN [ types |-> ts,
-       items |-> [k \in 1..Len(heads) |->
-                    [t |-> heads[k].t, id |-> heads[k].id, w |-> [j \in 1..ls[k] |-> WordFor(k, j)]]],
-       data |-> [k \in 1..Len(dl) |-> [j \in 1..dl[k] |-> ByteFor(k, j)]] ]
+       items |-> Strict([k \in 1..Len(heads) |->
+                    [t |-> heads[k].t, id |-> heads[k].id, w |-> Strict([j \in 1..ls[k] |-> WordFor(k, j)])]]),
+       data |-> Strict([k \in 1..Len(dl) |-> Strict([j \in 1..dl[k] |-> ByteFor(k, j)])]) ]
 
 CountsFor(ts) == {cnt \in [1..Len(ts) -> 0..MaxItems] : SumFn(cnt, Len(ts)) <= MaxItems}
 
@@ -135,7 +136,12 @@ Init == /\ v \in Versions
         /\ df \in Bases
         /\ c = NoCor
 
+\* a base with the maximal number of items and data blocks of the configuration
+MaxData == CHOOSE n \in {Len(dl) : dl \in DataLenSeqs} : \A dl \in DataLenSeqs : Len(dl) <= n
+Rich == Len(df.items) = MaxItems /\ Len(df.data) = MaxData
+
 Next == /\ c = NoCor
+        /\ CorruptAll \/ Rich
         /\ c' \in Corruptions(Layout(v, df))
         /\ UNCHANGED << v, df >>
 
